@@ -332,6 +332,23 @@ pub fn check_case(ctx: &mut Ctx, ps: &mut Parsers, case: &Case) {
     if let Ok(r) = crate::core::guarded(|| parser.parse_metadata(input)) {
         reports.push(("parse_metadata", r.into_report()));
     }
+    // the diagnostics that only exist when the caller's callbacks object: a refused recipe reference, a refused or
+    // commented metadata entry
+    {
+        use cooklang::analysis::{CheckResult, ParseOptions};
+        let opts = |kind: u8| ParseOptions {
+            recipe_ref_check: Some(Box::new(move |_| if kind == 0 { CheckResult::Error(vec!["no such recipe".into()]) } else { CheckResult::Warning(vec!["check the path".into()]) })),
+            metadata_validator: Some(Box::new(move |_, _, _| if kind == 0 { CheckResult::Warning(vec!["noted".into()]) } else { CheckResult::Error(vec!["refused".into()]) })),
+        };
+        for kind in 0..2u8 {
+            if let Ok(r) = crate::core::guarded(|| parser.parse_with_options(input, opts(kind))) {
+                reports.push(("parse_with_options", r.into_report()));
+            }
+        }
+        if let Ok(r) = crate::core::guarded(|| parser.parse_metadata_with_options(input, opts(1))) {
+            reports.push(("parse_metadata_with_options", r.into_report()));
+        }
+    }
     for (what, rep) in &reports {
         for d in rep.iter() {
             ctx.count("diagnostics_checked");
@@ -400,6 +417,10 @@ pub const DIAG_SEEDS: &[&str] = &[
     ">> time: 1h\n>> prep time: 5m\n>> cook time: x", ">> servings: 1|1\n>> locale: zz_\n>> tags: a,a", "@ x", "#", "~",
     ">> [mode]: text\n@a{1} #b ~c{1%min}", ">> [mode]: components\nsome text @a{1}", "@a{=1} #b{=2} @c{=x}",
     ">> [duplicate]: ref\n@a{1} @&a{2} @+a{3} @+b{}", ">> [mode]: steps\n@&a @+b{} @b{}", "@a{1 1/0%g} @b{99999999999/2} @c{1.1.1}",
+    // what a caller's callbacks may object to: recipe references (names written with blanks, comments and escapes before
+    // the brace), metadata entries in both syntaxes
+    "Napper de @@./sauces/beurre blanc {100%ml} et @@pâte  brisée{} ou @@a [- c -] b{} puis @@x\\ y{1}.", "---\ntitle: x\nservings: 2\n---\n@@dough{1} @./sides/rice{}", ">> source: y\n@@dough {}",
+    "Boil the ~egg(soft) and ~x y(z) now.", "Rest ~{2% kg} and ~{5%  foo} and ~{1 %\tmin}.", "Let ~a{}(n) ~{1%min}(m)",
 ];
 
 pub fn run(ctx: &mut Ctx) {
